@@ -481,8 +481,8 @@ def main(argv=None):
         mine = [r for r in res if r.get("section") == si]
         rep.add_results(nm, mine, sum(1 for it in items if it["section"] == si) - len(mine), exhaustive=si in (0, 1, 4, 5))
     import superrec2.utils.trees as T, superrec2.utils.disjoint_set as DS
-    rep.functions = R.source_digest(T.tree_to_triples, T.trees_to_triples, T.tree_from_triples, T.all_trees_from_triples, T.supertree, T.all_supertrees,
-                                    DS.DisjointSet.find, DS.DisjointSet.unite, DS.DisjointSet.to_list, DS.DisjointSet.binary, DS.DisjointSet.__len__)
+    rep.functions = R.safe_digest(lambda: R.source_digest(T.tree_to_triples, T.trees_to_triples, T.tree_from_triples, T.all_trees_from_triples, T.supertree, T.all_supertrees,
+                                    DS.DisjointSet.find, DS.DisjointSet.unite, DS.DisjointSet.to_list, DS.DisjointSet.binary, DS.DisjointSet.__len__))
     rep.bounds = {"trees": "every binary tree on 1-5 labelled leaves" + ("" if q else " + 300 seeded on 6 leaves"),
                   "triple sets": "all 8 subsets on 3 leaves, all 4096 subsets of the 12 triples on 4 leaves; seeded subsets on 5-6 leaves",
                   "supertrees": "2-3 restrictions (>= 2 leaves each) of a seeded tree on 4-6 leaves (20% taken from a different tree: often incompatible); every pair of "
